@@ -139,11 +139,10 @@ Proof.
   match goal with |- context [tl_peek ?k ?d s] => rewrite (tl_peek_congr lclass 0 k d s t H) end.
   split; auto. apply tl_push_congr; auto.
 Qed.
-Lemma contextual_enter_congr : forall a s t, seq_at lclass 0 s t -> enter_rel (contextual_enter a s) (contextual_enter a t).
+Lemma contextual_enter_congr : forall a s t, seq_at lclass 0 s t -> enter_rel (contextual_scope_enter a s) (contextual_scope_enter a t).
 Proof.
-  intros a s t H. unfold contextual_enter, enter_rel.
+  intros a s t H. unfold contextual_scope_enter, enter_rel.
   rewrite (tl_get_dict_congr lclass 0 k_contextual s t eq_refl H).
-  destruct (tl_get k_contextual v_empty_dict t) as [x|p|x]; auto. destruct a as [x|vs|x]; auto.
   split; auto. apply tl_set_congr; auto.
 Qed.
 Lemma detour_enter_congr : forall a s t, seq_at lclass 0 s t -> enter_rel (detour_enter a s) (detour_enter a t).
